@@ -34,7 +34,8 @@ func TestVerifSim(t *testing.T) {
 		Rule: "One run = one ChannelState driven by 20-80 tape-chosen events. Non-trivial = at least one successful append reply AND " +
 			"(at least one fault fired OR two effects were outstanding at once OR a metadata change happened while an effect was outstanding).",
 		Assumptions: []string{"the reactor guarantees listed under Stub (checked by reading pkg/channel/reactor: applyLeaderPullAckOffset/applyLeaderProgressAck reject AckOffset > LEO, op ids come from one atomic counter)",
-			"store results carry the contiguous range the store assigned (base = store LEO + 1), or an older already-durable range"},
+			"store results carry the contiguous range the store assigned (base = store LEO + 1), or an older already-durable range",
+			"quorum receipts carry a fresh range at store LEO + 1 or, for a client retry of a command this leader incarnation already committed (same record ids, same generation/epoch/leader epoch/fence version), the retained receipt with the original range and HW, as replication/quorum_log.go Commit returns it"},
 	})
 }
 
@@ -58,9 +59,22 @@ type msWaiter struct {
 	last    uint64
 	why     string
 	batchOp ch.OpID
+	replay  *msRetained // client retry of this already committed command
+}
+
+// msRetained is a command the durable quorum log committed and acknowledged
+// under one authority. replication/quorum_log.go Commit answers a retry of
+// the same command (same record ids, same authority) with the retained
+// receipt: the original range and HW, however far the log has grown since.
+type msRetained struct {
+	auth  string
+	ids   []uint64
+	first uint64
+	last  uint64
 }
 
 type msEffect struct {
+	replay    *msRetained
 	quorum    bool
 	fence     ch.Fence
 	nrec      int
@@ -104,6 +118,17 @@ type msim struct {
 	// acknowledged to this ChannelState instance (the reactor never resets it
 	// across fences either); used to bound HW independently of AdvanceHW.
 	ledger map[ch.NodeID]uint64
+
+	// retained receipts of the simulated quorum log (bounded, per authority)
+	retained []*msRetained
+}
+
+// authKey identifies one leader incarnation as the quorum log sees it: the
+// log drops its retained receipts whenever the authority (channel epoch,
+// leader term, fence version) changes; a reloaded runtime is a new incarnation.
+func (m *msim) authKey() string {
+	s := m.s
+	return fmt.Sprintf("g%d/e%d/l%d/L%d/f%s.%d", s.Generation, s.Epoch, s.LeaderEpoch, s.Leader, s.WriteFence.Token, s.WriteFence.Version)
 }
 
 // hwQuorumBound is the MinISR-th highest match among the ISR according to the
@@ -578,8 +603,33 @@ func (m *msim) evPropose() {
 	if single {
 		want = 1
 	}
+	// A client may re-send message ids that were already committed (timeout
+	// retry). On the durable-quorum path the command id is derived from the
+	// record ids, so the log answers with the retained receipt of the original
+	// commit - a range at or below the current HW - as long as the authority
+	// is the one that committed it.
+	var retry *msRetained
+	if single && len(batch) == 0 && !m.noFaults {
+		var cands []*msRetained
+		for _, rt := range m.retained {
+			if rt.auth == m.authKey() {
+				cands = append(cands, rt)
+			}
+		}
+		if len(cands) > 0 && tp.Chance(1, 4) {
+			retry = cands[tp.Intn(len(cands))]
+		}
+	}
 	for len(batch) < want {
 		mode := ch.CommitMode(tp.Weighted([]int{2, 3, 2})) // 0 (defaults to quorum), quorum, local
+		if retry != nil && len(batch) == 0 {
+			w := m.newWaiter(mode, 0)
+			w.ids = append([]uint64(nil), retry.ids...)
+			w.replay = retry
+			batch = append(batch, w)
+			r.Fault("client.retry_of_committed_command")
+			continue
+		}
 		batch = append(batch, m.newWaiter(mode, 1+tp.Weighted([]int{4, 2, 1})))
 	}
 	if len(batch) > want {
@@ -667,6 +717,9 @@ func (m *msim) evPropose() {
 		nrec += len(w.ids)
 	}
 	e.nrec = nrec
+	if single && len(batch) == 1 && batch[0].replay != nil && batch[0].replay.auth == m.authKey() && len(batch[0].replay.ids) == nrec {
+		e.replay = batch[0].replay // the log will find the command among its retained receipts
+	}
 	if len(task.StoreAppend.Records) != nrec {
 		r.FailSig("propose-shape", "records", fmt.Sprintf("task carries %d records, waiters contributed %d", len(task.StoreAppend.Records), nrec), nil)
 		return
@@ -699,6 +752,10 @@ func (m *msim) execute(e *msEffect, alreadyDurable bool) {
 		return
 	}
 	e.executed = true
+	if e.replay != nil {
+		e.base, e.last = e.replay.first, e.replay.last // retained receipt: exact original range, HW = last
+		return
+	}
 	if alreadyDurable && m.storeLEO >= uint64(e.nrec) {
 		e.base = m.storeLEO - uint64(e.nrec) + 1
 		e.last = m.storeLEO
@@ -855,6 +912,19 @@ func (m *msim) evDeliver() {
 			next += uint64(e.counts[i])
 		}
 		r.Probe("result.applied")
+		if e.quorum && e.replay != nil {
+			r.Probe("result.retained_receipt_replayed")
+			if e.last < before.HW {
+				r.Probe("result.retained_receipt_below_hw")
+			}
+		} else if e.quorum && len(e.waiters) == 1 {
+			// the log retains the receipt of every command it committed under this authority
+			w := m.waiters[e.waiters[0]]
+			m.retained = append(m.retained, &msRetained{auth: m.authKey(), ids: append([]uint64(nil), w.ids...), first: e.base, last: e.last})
+			if len(m.retained) > 8 {
+				m.retained = m.retained[1:]
+			}
+		}
 	} else {
 		r.Probe("result.failed_inflight")
 	}
